@@ -40,11 +40,24 @@ CONFIGS = {
 }
 
 
-def J(wl, configs=("avx2",), variant="asm", shards=(4, 16), floor=1, env=None, deadline=None, procs=None):
+def J(wl, configs=("avx2",), variant="asm", shards=(4, 16), floor=1, env=None, deadline=None, procs=None, tag=None):
     """one plan line = workload x configurations (each configuration is run in
     `shards` child processes)."""
-    return dict(wl=wl, configs=list(configs), variant=variant, shards=shards, floor=floor,
-                env=env or {}, deadline=deadline, procs=procs)
+    d = dict(wl=wl, configs=list(configs), variant=variant, shards=shards, floor=floor,
+             env=env or {}, deadline=deadline, procs=procs)
+    if tag:
+        d["tag"] = tag
+    return d
+
+
+def after(prelude, wl, configs=("avx2",), variant="asm", shards=(1, 2), slice_of=16, **kw):
+    """`wl` run after a prelude in the same process: a 1/slice_of slice of the quick cases of every workload in
+    `prelude` is executed first (journal discarded; those workloads are judged by their own jobs), so that whatever
+    they leave in package-level state of the library is what `wl` is judged in (harness/childmain)."""
+    env = dict(kw.pop("env", None) or {})
+    env["VERIF_PRELUDE"] = ",".join(prelude)
+    env["VERIF_PRELUDE_SHARDS"] = str(slice_of)
+    return J(wl, configs, variant, shards, env=env, tag="after", **kw)
 
 
 def both(wl, configs, shards=(4, 16), **kw):
@@ -62,6 +75,41 @@ def plugin(wl, configs=("avx2", "noadx"), shards=(1, 4), **kw):
     return [J(wl, list(configs), "plugin", shards, **kw)]
 
 
+def _add_mixed(plan):
+    """Mixed-order jobs, added to every plan (opt out with mixed=False): each workload of the property is run once more
+    in the default configuration of the asm and of the purego variant AFTER a 1/16 slice of every other workload of
+    the property in the same process (helper `after`), one shard of its usual sharding (the shard index follows
+    VERIF_SEED). The order in which object kinds and parameter choices are constructed and used in one process is
+    otherwise fixed by the process structure (one workload per process), so state that one kind leaves in
+    package-level variables of the library for another kind would never be observed."""
+    if plan.get("mixed") is False:
+        return
+    wls, seen = [], set()
+    for ln in plan["jobs"]:
+        if ln.get("thorough_only") or ln.get("tag") or ln["wl"] in seen or ln["wl"].endswith(("timerule", "fuzzreplay")):
+            continue
+        seen.add(ln["wl"])
+        wls.append(ln)
+    if len(wls) < 2:
+        return
+    variants = []
+    for v in ("asm", "purego", "race"):
+        if any(ln["variant"] == v for ln in plan["jobs"]):
+            variants.append(v)
+    extra = []
+    for ln in wls:
+        prelude = [o["wl"] for o in wls if o["wl"] != ln["wl"]]
+        for v in variants[:2]:
+            same = [o for o in plan["jobs"] if o["wl"] == ln["wl"] and o["variant"] == v and not o.get("thorough_only")]
+            if not same:
+                continue
+            j = after(prelude, ln["wl"], [same[0]["configs"][0]], v, shards=same[0]["shards"], deadline=same[0].get("deadline"),
+                      env=same[0].get("env"))
+            j["one_shard"] = True
+            extra.append(j)
+    plan["jobs"] = plan["jobs"] + extra
+
+
 PLAN = {}
 CLAIMS = {}
 BROKEN = {}   # property -> error text of a plan file that does not load
@@ -77,7 +125,7 @@ def _load():
         pid = os.path.basename(f)[:-3].upper()
         spec = importlib.util.spec_from_file_location("plans_" + pid, f)
         m = importlib.util.module_from_spec(spec)
-        m.J, m.both, m.plugin = J, both, plugin
+        m.J, m.both, m.plugin, m.after = J, both, plugin, after
         try:
             spec.loader.exec_module(m)
         except Exception as e:  # a broken plan file must break its own property only, not every check
@@ -85,6 +133,7 @@ def _load():
             continue
         PLAN[pid] = m.PLAN
         CLAIMS[pid] = m.CLAIM
+        _add_mixed(m.PLAN)
 
 
 _load()
